@@ -47,7 +47,8 @@ CONSTANTS NS,         \* number of streams (max)
 None == -1000
 \* values for the configuration files (a .cfg cannot hold negative numbers)
 OffsetsStd == {-2, 0, 3}
-OffsetsTwo == {-2, 3}
+OffsetsSmall == {-2, 0}
+OffsetsZero == {0}
 Looms == 1..NL
 
 NonDecr(q) == \A i \in 1..(Len(q) - 1) : q[i] <= q[i + 1]
@@ -75,10 +76,12 @@ MHeads(sys, cur) == [s \in 1..NStreams(sys) |-> MHead(sys, cur, s)]
 Em(s, k, c, first) == [s |-> s, k |-> k, c |-> c, d |-> c - first]
 FirstOf(em, c) == IF em = <<>> THEN c ELSE em[1].c      \* corrected time of the first emitted event
 
-ExplicitSystems ==
-   UNION {{[loom |-> lm, off |-> of, clocks |-> cl, base |-> Base, tool |-> "emu"] :
-             lm \in LoomAssignments(n), of \in [Looms -> Offsets], cl \in [1..n -> SortedSeqs]}
-          : n \in 1..NS}
+\* v is one of the explicit systems within the bounds (written with nested
+\* quantifiers so that TLC enumerates the initial states without building the set)
+IsExplicitSystem(v) ==
+   \E n \in 1..NS : \E lm \in LoomAssignments(n) : \E of \in [Looms -> Offsets] :
+      \E cl \in [1..n -> SortedSeqs] :
+         v = [loom |-> lm, off |-> of, clocks |-> cl, base |-> Base, tool |-> "emu"]
 
 NonDecreasing(em) == \A i \in 1..(Len(em) - 1) : em[i].c <= em[i + 1].c
 PerStreamOrder(em) == \A i, j \in 1..Len(em) : (i < j /\ em[i].s = em[j].s) => em[i].k < em[j].k
